@@ -147,6 +147,14 @@ func init() {
 	v("MaxAlloc", func(e *Engine, fr *frame, fn *ssa.Function, a []Value) Value {
 		return e.intC(int64(e.maxAlloc))
 	})
+	v("AllocLimit", func(e *Engine, fr *frame, fn *ssa.Function, a []Value) Value {
+		e.kv["__alloc_limit"] = a[0]
+		return nil
+	})
+	v("AllocCut", func(e *Engine, fr *frame, fn *ssa.Function, a []Value) Value {
+		e.kv["__alloc_cut"] = a[0]
+		return nil
+	})
 	v("Assume", func(e *Engine, fr *frame, fn *ssa.Function, a []Value) Value {
 		e.Assume(a[0].(*sym.Term))
 		return nil
@@ -849,6 +857,19 @@ func init() {
 	reg("reflect.TypeOf", func(e *Engine, fr *frame, fn *ssa.Function, a []Value) Value {
 		return Opaque{"reflect.TypeOf"}
 	})
+
+	// strconv formatting of a symbolic integer needs 64-bit division by
+	// constants, which no available solver decides in reasonable time; the
+	// result is an opaque placeholder (listed as a stub).
+	itoa := func(e *Engine, fr *frame, fn *ssa.Function, a []Value) Value {
+		t := a[0].(*sym.Term)
+		if t.IsConst() {
+			return Str{S: fmt.Sprint(t.SignedVal())}
+		}
+		e.stubsUsed["strconv.Itoa(symbolic) -> placeholder"] = true
+		return Str{S: "\x00itoa"}
+	}
+	reg("strconv.Itoa", itoa)
 
 	// ------------------------------------------------------------ sort
 	reg("sort.Slice", sortSlice)
